@@ -1,5 +1,6 @@
 import LiquidVerif.Lemmas.TaintRender
 import LiquidVerif.Lemmas.TaintEntRender
+import LiquidVerif.Lemmas.TaintNoop
 /-!
 # C05 — autoescape keeps render data from injecting HTML
 
@@ -156,6 +157,25 @@ theorem autoescape_noop_counterexample :
   · rw [chain2, render_single]
     show (Except.ok (outVal true (.num (5 : Nat))) : Except Err Str) = _
     simp only [outVal]; rw [hd 5 (by decide)]
+
+/-- **Third sentence — partial (operator level).** On text that contains none of `< > ' " &`, every place where autoescape
+changes what the engine computes is the identity: `markupsafe.escape` and `html.escape` return their argument; `to_liquid_string`
+writes the same characters for a value and for its flag-free twin; `+`, `join` and `replace` on `Markup`s produce the characters
+of the plain `str` operations. (The statement for whole templates is not proved in Lean: it is checked on every case of the
+streams by rendering with autoescape on and off — oracle signature `noop|clean-data` — and the `auto = false` half of the model is
+tied to the engine by stream `render-off`. Read on *outputs* the sentence is false: `autoescape_noop_counterexample`.) -/
+theorem autoescape_noop_on_clean_partial :
+    (∀ s : Str, NoSp s → escape s = s ∧ htmlEscape s = s) ∧
+    (∀ v : Val, v.NoSp → outVal true v = outVal false v.plain) ∧
+    (∀ a b : TStr, NoSp a.chars → NoSp b.chars → (mixAdd a b).chars = a.chars ++ b.chars) ∧
+    (∀ (sep : TStr) (items : List TStr), (∀ x ∈ items, NoSp x.chars) →
+        (joinT sep items).chars = LiquidVerif.Filters.joinStr sep.chars (items.map (·.chars))) ∧
+    (∀ (first : Bool) (s old new : TStr), NoSp new.chars →
+        (replaceT first s old new).chars = (if first then replaceFirst else replaceAll) old.chars new.chars s.chars) :=
+  ⟨fun _ h => ⟨escape_noop h, htmlEscape_noop h⟩, fun _ => outVal_noop, fun _ _ => mixAdd_noop, fun _ _ => joinT_noop,
+   fun f s old _ => replaceT_noop f s old⟩
+
+example : NoSp "plain text, 100% fine; a+b".toList := isNoSp_iff.mp (by decide)
 
 /-- Non-vacuity of `amp_entities_partial`: hypotheses hold for a template with escape, append and join. -/
 example : nodesOkE [.text "a&amp;".toList, .output (.chain (.var "x") [⟨.escape, []⟩, ⟨.append, [.lit "-".toList]⟩]),
